@@ -26,6 +26,9 @@ type script struct {
 	Unconf   bool   `json:"unconfirmed"`
 	Large    bool   `json:"large"` // amounts that need two outputs on each side
 	Fault    string `json:"fault"`
+	// Unmined: renew / refresh a contract whose formation transaction is still in the
+	// pool: the host knows the contract but has no state element for it yet
+	Unmined bool `json:"unmined,omitempty"`
 }
 
 func (s script) String() string {
@@ -39,6 +42,9 @@ func (s script) String() string {
 	if s.Large {
 		x += "/large"
 	}
+	if s.Unmined {
+		x += "/unmined"
+	}
 	return x
 }
 
@@ -48,14 +54,14 @@ var allFaults = []string{
 	"req-wrong-basis", "req-unknown-basis", "req-missing-parents", "req-underfund", "req-dup-inputs",
 	"req-invalid-params", "req-bad-challenge", "req-unknown-contract", "req-wrong-renter-key", "req-foreign-input",
 	"sig-bad-contract", "sig-bad-renewal", "sig-bad-input", "sig-policy-count",
-	"host-not-accepting", "host-no-funds",
+	"host-not-accepting", "host-no-funds", "elem-lookup-fail",
 	"resp-inputs-short", "final-empty", "final-bad-sig", "final-bad-renewal-sig", "final-txid",
 }
 
 // applicable says whether a fault makes sense for a script.
 func applicable(s script) bool {
 	switch s.Fault {
-	case "req-bad-challenge", "req-unknown-contract", "sig-bad-renewal", "final-bad-renewal-sig":
+	case "req-bad-challenge", "req-unknown-contract", "sig-bad-renewal", "final-bad-renewal-sig", "elem-lookup-fail":
 		return s.Kind != "form"
 	case "req-wrong-renter-key", "final-txid":
 		return s.Kind == "form"
@@ -313,6 +319,10 @@ func (w *world) run(s script) *outcome {
 	}
 	allowance, collateral := w.amounts(s, o.Existing.Revision)
 
+	if s.Fault == "elem-lookup-fail" {
+		w.rc.failElement = true
+		defer func() { w.rc.failElement = false }()
+	}
 	if s.Fault == "host-not-accepting" {
 		hs := w.base
 		hs.AcceptingContracts = false
